@@ -420,7 +420,7 @@ def main():
     ctx = Ctx(a.pid, a.tier if a.tier in ("quick", "thorough") else "quick", seed)
     mod = importlib.import_module("checks." + a.pid.lower())
     try:
-        ctx.bin = hbuild.build("plain")
+        ctx.bin = hbuild.build(os.environ.get("VERIF_VARIANT", "plain"))
     except hbuild.BuildError as e:
         log("[build] FAILED (the tree does not compile):\n" + str(e)[-3000:])
         ctx.violation("build", {"why": "implementation does not build", "log": str(e)[-3000:]}, suffix="no-failing-input-found")
